@@ -300,7 +300,13 @@ func genChainWalk(r *rand.Rand, n int) []Step {
 	}
 	for i := 0; i < n; i++ {
 		u := pick(r, users...)
-		switch r.Intn(30) {
+		switch r.Intn(31) {
+		case 30: // the permissionless oracle listing of a denom, sometimes twice in one (then rolled back) transaction
+			ls := Step{"a": "createAssetInfo", "u": u, "d": pick(r, "unewa", "unewb", "ibc/NEW"), "display": pick(r, "NEWA", "NEWB")}
+			if r.Intn(2) == 0 {
+				ls = Step{"a": pick(r, "twin", "poison"), "inner": map[string]any(ls)}
+			}
+			st = append(st, ls)
 		case 0, 1:
 			st = append(st, Step{"a": "swapIn", "u": u, "p": float64(1 + r.Intn(2)), "din": pick(r, "uusdc", ""), "sz": pick(r, sizes...), "limit": pick(r, "loose", "tight")})
 		case 2:
